@@ -15,7 +15,7 @@ pub struct Fail { pub prop: &'static str, pub ob: &'static str, pub what: String
 macro_rules! fail { ($o:expr, $($t:tt)*) => { return Err(Fail { prop: "C13", ob: $o, what: format!($($t)*) }) } }
 
 #[derive(Clone, Debug, PartialEq)]
-pub enum St { Absent, File { size: usize, fill: u8, t: u64 }, Dir { names: Vec<&'static str>, t: u64 } }
+pub enum St { Absent, File { size: usize, fill: u8, t: u64 }, Dir { names: Vec<&'static [u8]>, t: u64 } }
 
 fn content(size: usize, fill: u8) -> Vec<u8> { (0..size).map(|i| fill.wrapping_add((i % 251) as u8)).collect() }
 fn time(t: u64) -> SystemTime { SystemTime::UNIX_EPOCH + Duration::from_secs(1_600_000_000 + t * 1000) + Duration::from_nanos(t * 7) }
@@ -26,19 +26,22 @@ fn materialize(p: &Path, s: &St) -> std::io::Result<()> {
   match s {
     St::Absent => {}
     St::File { size, fill, t } => { let mut f = File::create(p)?; f.write_all(&content(*size, *fill))?; f.flush()?; f.set_modified(time(*t))?; }
-    St::Dir { names, t } => { fs::create_dir(p)?; for n in names { File::create(p.join(n))?; } File::open(p)?.set_modified(time(*t))?; }
+    St::Dir { names, t } => { fs::create_dir(p)?; for n in names { File::create(p.join(<std::ffi::OsStr as std::os::unix::ffi::OsStrExt>::from_bytes(n)))?; } File::open(p)?.set_modified(time(*t))?; }
   }
   Ok(())
 }
 pub fn states() -> Vec<St> {
   let mut v = vec![St::Absent];
   for (size, fill, t) in [(0usize, 1u8, 1u64), (1, 1, 1), (1, 2, 1), (1, 1, 2), (5, 1, 3), (8191, 1, 3), (8192, 1, 3), (8192, 9, 3), (8193, 1, 2), (20000, 1, 5), (20000, 4, 5), (20000, 1, 4)] { v.push(St::File { size, fill, t }); }
-  for (names, t) in [(vec![], 1u64), (vec!["a"], 1), (vec!["a", "b"], 1), (vec!["ab"], 1), (vec!["a", "b"], 2), (vec!["ba"], 2), (vec!["b", "a"], 3)] { v.push(St::Dir { names, t }); }
+  let dirs: Vec<(Vec<&'static [u8]>, u64)> = vec![(vec![], 1u64), (vec![b"a"], 1), (vec![b"a", b"b"], 1), (vec![b"ab"], 1), (vec![b"a", b"b"], 2), (vec![b"ba"], 2), (vec![b"b", b"a"], 3),
+    // names that are not valid UTF-8 and differ only in such a byte
+    (vec![b"gen_\xFF.o"], 4), (vec![b"gen_\xFE.o"], 4)];
+  for (names, t) in dirs { v.push(St::Dir { names, t }); }
   v
 }
 fn exists_of(s: &St) -> bool { !matches!(s, St::Absent) }
 fn mtime_of(s: &St) -> Option<u64> { match s { St::Absent => None, St::File { t, .. } | St::Dir { t, .. } => Some(*t) } }
-fn nameset(n: &Vec<&'static str>) -> Vec<&'static str> { let mut v = n.clone(); v.sort(); v }
+fn nameset(n: &Vec<&'static [u8]>) -> Vec<&'static [u8]> { let mut v = n.clone(); v.sort(); v }
 /// Some(true): the observed aspect differs (must be inconsistent); Some(false): equal (must be consistent); None: not claimed
 fn hash_differs(a: &St, b: &St) -> Option<bool> {
   match (a, b) {
